@@ -11,8 +11,12 @@ Tie  : the REAL pool (threading.c, built with the pthread calls redirected to th
              free no thread unfinished and no task lost; the shim reports deadlock), and
          (2) is replayed event by event through the extracted `step` of the Coq model, with the
              executable invariants checked in every state (bin/pool).
+       Scripts include NESTED ASSIGN (N/B/D: task bodies calling assign on the same pool, queue path and
+       inline nesting on the client and on a worker) and free on a busy pool (F).
        The Coq refutation witness (limit lowered while the freed worker runs) is replayed on the
-       real pool: same events, deadlock.
+       real pool: same events, deadlock; the example traces of Props/Properties_C06.v are replayed too.
+       A tree that carries fixes/C06_limit_while_busy.patch is recognised and validated against the
+       repaired model (init_r): no deadlock may remain, also when the limit is lowered on a busy pool.
 """
 import os, json, re, shlex, time, concurrent.futures as cf
 import vf
@@ -21,7 +25,46 @@ KNOWN_SCRIPT = "n2 a1 l1 w f"
 SIG_KNOWN = "deadlock:limit-lowered-while-freed-worker-runs:script=n2_a1_l1_w_f"
 
 
-def jobs_for(ctx):
+EXAMPLES = [("nested", "n2 N1 w f"), ("inline", "n1 D2 w"), ("worker_inline", "n1 s D1 S w")]
+REPAIRED_EXAMPLE = ("repaired", "n2 a1 l1 w f")
+# limit lowered / pool freed while tasks run: explored only on a repaired tree (no deadlock may remain)
+REPAIRED_SCRIPTS = ["n2 a2 l1 w f", "n3 N2 l1 w f", "n2 D2 l1 w f", "n3 a3 l1 a1 w f", "n2 a2 l1 F", "n3 B2 l2 w l1 a1 w f"]
+
+
+def ensure_pool_bin(ctx):
+    """bin/pool must be the extraction of the CURRENT model: rebuild it when a source is newer."""
+    coq, oc, b = os.path.join(vf.VERIF, "coq"), os.path.join(vf.VERIF, "ocaml"), os.path.join(vf.VERIF, "bin", "pool")
+    srcs = [os.path.join(coq, "Conc", f) for f in ("PoolModel.v", "PoolWitness.v")] + \
+           [os.path.join(coq, "Extract", "Extract_pool.v"), os.path.join(oc, "pool_driver.ml")]
+    if os.path.exists(b) and all(os.path.getmtime(x) <= os.path.getmtime(b) for x in srcs):
+        return b
+    os.makedirs(os.path.join(vf.VERIF, "bin"), exist_ok=True)
+    cmd = ("set -e; mkdir -p %s/bin; cd %s; for f in Conc/PoolModel Conc/PoolWitness; do "
+           "if [ ! -e $f.vo ] || [ $f.v -nt $f.vo ]; then coqc -q -R . MPSV $f.v > /dev/null; fi; done; "
+           "coqc -q -R . MPSV Extract/Extract_pool.v > /dev/null; cd %s; T=$(mktemp -d); cp pool.ml pool.mli pool_driver.ml $T/; cd $T; "
+           "ocamlfind ocamlopt -O2 -w -a -package str,unix,zarith -linkpkg pool.mli pool.ml pool_driver.ml -o pool.new 2>/dev/null || "
+           "ocamlfind ocamlopt -w -a -package str,unix,zarith -linkpkg pool.mli pool.ml pool_driver.ml -o pool.new; "
+           "mv pool.new %s; rm -rf $T") % (vf.VERIF, coq, oc, b)
+    rc, o, e = vf.sh(["bash", "-c", "flock %s/bin/.pool.lock bash -c %s" % (vf.VERIF, shlex.quote(cmd))], timeout=900)
+    if rc != 0 or not os.path.exists(b):
+        raise vf.InfraError("rebuilding bin/pool failed:\n%s" % (e or o)[-2000:])
+    ctx.log("rebuilt bin/pool (model sources newer than the binary)")
+    return b
+
+
+def tree_is_repaired(ctx):
+    """fixes/C06_limit_while_busy.patch applied?  (the bottom of mps_thread_mainloop gives the busy slot back)"""
+    try:
+        src = open(os.path.join(ctx.snap("shim"), "src", "libmps", "system", "threading.c"), errors="replace").read()
+    except Exception:
+        return False
+    m = re.search(r"mps_thread_mainloop\s*\(void \* thread_ptr\)(.*?)\n}\n", src, re.S)
+    body = m.group(1) if m else ""
+    tail = body[body.rfind("pthread_cond_wait"):] if "pthread_cond_wait" in body else ""
+    return "busy_counter--" in tail and "work_completed_mutex" in tail
+
+
+def jobs_for(ctx, repaired=False):
     """(script, harness args, strict model?, build) -- deterministic list; sizes measured, see evidence."""
     J = []
     q = ctx.quick()
@@ -54,18 +97,33 @@ def jobs_for(ctx):
         dfs(s, 2 if q else 3 if len(s) < 16 else 2, shards=4)
         dfs(s, 1, "--spurious 1")
     dfs("n2 a2 w f", 2, "--spurious 2", shards=2)
-    # tasks that call assign from inside a worker: harness-level predicate only (not in the model)
-    for s in ["n2 N1 w f", "n3 N2 w f"]:
+    # NESTED ASSIGN (in the model): task bodies call assign on the same pool.  N: k tasks spawn one each,
+    # B: breadth, D: chain (depth <= 3); n1: inline nesting on the client; n1 s: queue path from the single
+    # worker; n1 s .. S: strict cleared while queued -> inline nesting ON the worker; l3: limit raised on a busy pool
+    for s in ["n2 N1 w f", "n2 B2 w f", "n2 D2 w f", "n1 D3 w f", "n1 B2 a1 w f", "n1 s D2 w f", "n1 s D2 S w f", "n1 s N2 S w f",
+              "n2 N1 w N1 w f"]:
         dfs(s, 2 if q else 3, shards=4)
+    for s in ["n3 N2 w f", "n2 D2 l3 w f", "n3 D3 w f"]:
+        dfs(s, 1 if q else 2, shards=4)
+    dfs("n2 N1 w f", 1, "--spurious 1")
+    dfs("n2 D2 w f", 2, "--free-switch", shards=4)
+    # free on a pool that may be busy (no wait): never blocks, joins everybody, loses exactly the queued tasks
+    for s in ["n2 a2 F", "n2 N1 F", "n1 s a2 F", "n3 a3 F", "n2 a1 w a2 F"]:
+        dfs(s, 2 if q else 3, strict=False, shards=2)
     # the documented misuse: limit lowered while tasks run -> deadlocks are the known finding
+    # (on a repaired tree: no deadlock may remain, here and in further scripts of the same kind)
     dfs(KNOWN_SCRIPT, 2, strict=False)
+    if repaired:
+        for s in REPAIRED_SCRIPTS:
+            dfs(s, 2 if q else 3, strict=False, shards=4)
     # sampling on the sanitizer build (bigger scripts)
     seed = ctx.seed
     nr = 150 if q else 3000
-    for s in ["n4 a4 w l2 a3 w l4 a4 w f", "n3 a4 w a4 w a4 w f", "n4 s a4 w l1 a4 w f", "n2 a2 w l1 a1 w f"]:
-        J.append((s, "--random %d --seed %d --spurious 2" % (nr, seed), True, "shimsan"))
+    for s in ["n4 a4 w l2 a3 w l4 a4 w f", "n3 a4 w a4 w a4 w f", "n4 s a4 w l1 a4 w f", "n2 a2 w l1 a1 w f",
+              "n3 N2 w B3 w l2 D3 w f", "n1 s B3 S N2 w f"] + (["n4 N2 l2 B2 w l1 a2 F"] if repaired else []):
+        J.append((s, "--random %d --seed %d --spurious 2" % (nr, seed), "l1 a2 F" not in s, "shimsan"))
         for d in (2, 3, 4):
-            J.append((s, "--pct %d --depth %d --seed %d" % (nr // 3, d, seed * 10 + d), True, "shimsan"))
+            J.append((s, "--pct %d --depth %d --seed %d" % (nr // 3, d, seed * 10 + d), "l1 a2 F" not in s, "shimsan"))
     return J
 
 
@@ -80,10 +138,10 @@ def parse_out(out):
     return bad, summ
 
 
-def run_job(job, bins, pool, env):
+def run_job(job, bins, pool, env, repaired=False):
     script, args, strict, build = job
-    cmd = "%s --script %s %s 2>/dev/null | %s %s" % (shlex.quote(bins[build]), shlex.quote(script), args,
-                                                   shlex.quote(pool), "--strict" if strict else "")
+    cmd = "%s --script %s %s 2>/dev/null | %s %s %s" % (shlex.quote(bins[build]), shlex.quote(script), args,
+                                                      shlex.quote(pool), "--strict" if strict else "", "--repaired" if repaired else "")
     t0 = time.time()
     rc, out, err = vf.sh(["bash", "-o", "pipefail", "-c", cmd], timeout=2400, env=env)
     return job, rc, out, (err or "") + "\n[job %.1fs]" % (time.time() - t0)
@@ -105,7 +163,7 @@ def report(ctx, job, bad, stats):
         m = re.search(r"--spurious (\d+)", args)
         rep["spurious"] = int(m.group(1)) if m else 0
         if kind == "deadlock":
-            if script == KNOWN_SCRIPT:
+            if script == KNOWN_SCRIPT and not stats.get("repaired"):
                 if d.get("model_dead") == "true":
                     seen.discard(key)   # every deadlock of the known script must be model-confirmed
                     stats["known_deadlocks_model_confirmed"] += 1
@@ -140,9 +198,12 @@ def run(ctx):
     except Exception:
         pass
     bins = {"shim": ctx.compile_harness(["vf_sched.c", "c06_pool.c"], "c06_pool", mode="shim")}
-    pool = ctx.model_bin("pool")
+    pool = ensure_pool_bin(ctx)
     env = ctx.san_env()
     stats = {"deadlocks": 0, "known_deadlocks_model_confirmed": 0, "model_rejects": 0}
+    repaired = tree_is_repaired(ctx)
+    stats["repaired"] = repaired
+    if repaired: ctx.log("this tree carries the busy-slot repair (fixes/C06_limit_while_busy.patch): validating against init_r")
 
     if ctx.replay:
         r = json.load(open(ctx.replay))
@@ -151,7 +212,7 @@ def run(ctx):
         args = "--replay %s --spurious %d" % (r.get("schedule", "-"), int(r.get("spurious", 0)))
         if r.get("follow"): args = "--follow %s" % r["follow"]
         job = (r["script"], args, False, b)
-        _, rc, out, err = run_job(job, bins, pool, env)
+        _, rc, out, err = run_job(job, bins, pool, env, repaired)
         bad, summ = parse_out(out)
         ctx.log("replay:", out.strip()[-600:])
         report(ctx, job, bad, stats)
@@ -160,28 +221,46 @@ def run(ctx):
 
     bins["shimsan"] = ctx.compile_harness(["vf_sched.c", "c06_pool.c"], "c06_pool_san", mode="shimsan")
 
-    # ---- 1. the Coq refutation witness on the real pool
-    rc, wout, _ = vf.sh([pool, "--witness", "limit_running"])
-    wl = [l for l in wout.splitlines() if l and not l.startswith("follow")]
-    follow = [l for l in wout.splitlines() if l.startswith("follow ")][0].split()[1]
-    rc, rout, _ = vf.sh([bins["shim"], "--script", KNOWN_SCRIPT, "--follow", follow], timeout=120)
-    real = [l for l in rout.splitlines() if l and not l.startswith("#") and not re.search(r" (minit|mdestroy|cinit|cdestroy) ", l)]
-    hdr = (rout.splitlines() or [""])[0]
-    witness_ok = (" status 1 " in hdr) and (" div 0 " in hdr) and real == wl
-    wrep = {"script": KNOWN_SCRIPT, "follow": follow, "build": "shim", "schedule": hdr.split(" sched ")[-1] if " sched " in hdr else "-"}
-    if witness_ok:
-        ctx.violation(SIG_KNOWN, "Coq witness witness_limit_running reproduces on the real pool event for event and deadlocks", wrep)
+    # ---- 1. Coq traces on the real pool: the refutation witness (same events, deadlock) and the example traces
+    def replay_model_trace(name, script):
+        rc, wout, _ = vf.sh([pool, "--witness", name])
+        wl = [l for l in wout.splitlines() if l and not l.startswith("follow")]
+        fl = [l for l in wout.splitlines() if l.startswith("follow ")]
+        follow = fl[0].split()[1] if fl else "-"
+        rc, rout, _ = vf.sh([bins["shim"], "--script", script, "--follow", follow], timeout=120)
+        real = [l for l in rout.splitlines() if l and not l.startswith("#") and not re.search(r" (minit|mdestroy|cinit|cdestroy) ", l)]
+        hdr = (rout.splitlines() or [""])[0]
+        return wl, follow, real, hdr
+    witness_ok, examples_ok = False, {}
+    if not repaired:
+        wl, follow, real, hdr = replay_model_trace("limit_running", KNOWN_SCRIPT)
+        witness_ok = (" status 1 " in hdr) and (" div 0 " in hdr) and real == wl
+        wrep = {"script": KNOWN_SCRIPT, "follow": follow, "build": "shim", "schedule": hdr.split(" sched ")[-1] if " sched " in hdr else "-"}
+        if witness_ok:
+            ctx.violation(SIG_KNOWN, "Coq witness witness_limit_running reproduces on the real pool event for event and deadlocks", wrep)
+        else:
+            ctx.violation("correspondence:refutation-witness-not-reproduced",
+                          "the trace of C06_pool_limit_while_running_refuted is not an execution of the real pool any more (header: %s)" % hdr[:200],
+                          wrep, no_input=True)
     else:
-        ctx.violation("correspondence:refutation-witness-not-reproduced",
-                      "the trace of C06_pool_limit_while_running_refuted is not an execution of the real pool any more (header: %s)" % hdr[:200],
-                      wrep, no_input=True)
+        wl, follow = [], "-"
+        ctx.log("repaired tree: C06_pool_limit_while_running_refuted is a statement about the unrepaired code; its witness is not replayed")
+    for name, script in EXAMPLES + ([REPAIRED_EXAMPLE] if repaired else []):
+        el, ef, ereal, ehdr = replay_model_trace(name, script)
+        ok = (" status 0 " in ehdr) and (" div 0 " in ehdr) and (" rc 0 " in ehdr) and ereal == el and len(el) > 10
+        examples_ok[name] = ok
+        if not ok:
+            ctx.violation("correspondence:example-trace-not-reproduced:%s" % name,
+                          "the Coq trace example_%s (Conc/PoolWitness.v) is not an execution of the real pool on script '%s' (header: %s)" % (name, script, ehdr[:160]),
+                          {"script": script, "follow": ef, "build": "shim"}, no_input=True)
 
     # ---- 2. exploration + trace validation
-    jobs = jobs_for(ctx)
-    tot = {"runs": 0, "events": 0, "ok": 0, "distinct": 0, "distinct_nontrivial": 0, "skipped_model": 0, "spurious": 0, "taus": 0, "max_trace_len": 0}
+    jobs = jobs_for(ctx, repaired)
+    tot = {"runs": 0, "events": 0, "ok": 0, "distinct": 0, "distinct_nontrivial": 0, "skipped_model": 0, "nested_runs": 0, "spurious": 0, "taus": 0, "max_trace_len": 0}
+    kinds = {"plain": 0, "nested_queue_or_inline(N/B/D)": 0, "free_on_busy_pool(F)": 0, "limit_change": 0, "strict_async": 0, "limit_lowered_while_busy": 0}
     hist, per_script, samples = {}, {}, []
     with cf.ThreadPoolExecutor(max_workers=int(os.environ.get("VERIF_JOBS", "16"))) as ex:
-        for job, rc, out, err in ex.map(lambda j: run_job(j, bins, pool, env), jobs):
+        for job, rc, out, err in ex.map(lambda j: run_job(j, bins, pool, env, repaired), jobs):
             script, args, strict, build = job
             bad, summ = parse_out(out)
             if rc != 0 or summ is None:
@@ -191,9 +270,16 @@ def run(ctx):
             if mt and float(mt.group(1)) > 15: ctx.log("slow job %ss runs=%d: %s %s" % (mt.group(1), n, script, args))
             tot["runs"] += n; tot["events"] += int(summ["events"]); tot["ok"] += int(summ["ok"])
             tot["distinct"] += int(summ["distinct_traces"]); tot["skipped_model"] += int(summ["skipped_model"])
-            tot["spurious"] += int(summ["spurious"]); tot["taus"] += int(summ["taus"])
+            tot["spurious"] += int(summ["spurious"]); tot["taus"] += int(summ["taus"]); tot["nested_runs"] += int(summ.get("nested_runs", 0))
+            toks = script.split()
+            if any(t[0] in "NBD" for t in toks): kinds["nested_queue_or_inline(N/B/D)"] += n
+            if "F" in toks: kinds["free_on_busy_pool(F)"] += n
+            if any(t[0] == "l" for t in toks): kinds["limit_change"] += n
+            if any(t in ("s", "S") for t in toks): kinds["strict_async"] += n
+            if script == KNOWN_SCRIPT or script in REPAIRED_SCRIPTS: kinds["limit_lowered_while_busy"] += n
+            if not any(t[0] in "NBDFlsS" for t in toks): kinds["plain"] += n
             tot["max_trace_len"] = max(tot["max_trace_len"], int(summ["max_trace_len"]))
-            ntasks = sum(int(t[1:]) for t in script.split() if t[0] in "aN")
+            ntasks = sum(int(t[1:]) for t in script.split() if t[0] in "aNBD")
             if ntasks >= 1 and not script.startswith("n1 "):
                 tot["distinct_nontrivial"] += int(summ["distinct_traces"])
             for kv in summ.get("hist", "").split(","):
@@ -206,7 +292,49 @@ def run(ctx):
                 samples.append({"script": script, "explore": args, "runs": n, "events": int(summ["events"])})
     ctx.log("explored %d schedules (%d events), %d accepted by model+predicate, %d deadlocks (%d known, model-confirmed)"
             % (tot["runs"], tot["events"], tot["ok"], stats["deadlocks"], stats["known_deadlocks_model_confirmed"]))
-    samples.append({"witness_trace_head": wl[:25], "witness_follow": follow, "reproduced_on_real_pool": witness_ok})
+    samples.append({"witness_trace_head": wl[:25], "witness_follow": follow, "reproduced_on_real_pool": witness_ok,
+                    "example_traces_reproduced": examples_ok, "tree_repaired": repaired})
+
+    # ---- 3. solver discipline: real solves under the shim with the pool entry points wrapped at link time.
+    # The precondition of C06_pool_no_stuck_state (limit lowered / pool freed only on a quiescent pool) is
+    # checked at every call the library (or the harness, for the async private pool) makes.
+    WRAP = " ".join("-Wl,--wrap=" + f for f in ["mps_thread_pool_set_concurrency_limit", "mps_thread_pool_free",
+                                                 "mps_thread_pool_assign", "mps_thread_pool_wait"])
+    hsolve = ctx.compile_harness(["vf_sched.c", "c06_solve.c"], "c06_solve", mode="shim", extra_ldflags=WRAP)
+    solve_cov = {}
+    nr, npct = (40, 20) if ctx.quick() else (600, 300)
+    for sc in ["j2", "reuse", "small", "cheb", "async", "secular"]:
+        for jobs in ("4", "2"):
+            rc, out, err = vf.sh([hsolve, "--scenario", sc, "--jobs", jobs, "--random", str(nr), "--pct", str(npct), "--seed", str(ctx.seed)],
+                                 timeout=1200, env=env)
+            runs = [dict(re.findall(r"(\w+)=(\S+)", l)) for l in out.splitlines() if l.startswith("RUN ")]
+            scheds = [l[6:] for l in out.splitlines() if l.startswith("SCHED ")]
+            if rc != 0 or len(runs) != 1 + nr + npct:
+                raise vf.InfraError("c06_solve failed rc=%s scenario=%s: %s" % (rc, sc, (err or out)[-800:]))
+            c = solve_cov.setdefault(sc, {"runs": 0, "events": 0, "setlimit": 0, "lowering": 0, "lowering_busy": 0, "free": 0, "free_busy": 0,
+                                          "assign": 0, "nested_assign": 0, "wait": 0, "bad": 0})
+            for r in runs:
+                c["runs"] += 1
+                for k, kk in (("events", "events"), ("setlimit", "setlimit"), ("lowering", "lowering"), ("lowering_busy", "lowering_busy"),
+                              ("free", "free"), ("free_busy", "free_busy"), ("assign", "assign"), ("nested", "nested_assign"), ("wait", "wait")):
+                    c[kk] += int(r.get(k, 0))
+                if r.get("status") != "0" or r.get("rc") != "0":
+                    c["bad"] += 1
+                    what = r.get("what", "-")
+                    if r.get("status") == "1" and what == "-": what = "deadlock"
+                    rep = {"scenario": sc, "jobs": jobs, "mode": r.get("mode"), "seed": r.get("seed"), "schedule": scheds.pop(0) if scheds else "-",
+                           "how": "harness/c06_solve --scenario %s --jobs %s (mode %s seed %s)" % (sc, jobs, r.get("mode"), r.get("seed"))}
+                    if what.startswith("discipline:"):
+                        ctx.violation("%s:scenario=%s" % (what, sc),
+                                      "the library lowers the concurrency limit / frees a pool that is not quiescent (busy_counter != 0 or queue non-empty) "
+                                      "during a real solve: the precondition of C06_pool_no_stuck_state is not met, the next wait can block forever", rep)
+                    else:
+                        ctx.violation("solve:%s:scenario=%s" % (what, sc), "real solve under the scheduler shim fails: %s (status %s rc %s)"
+                                      % (what, r.get("status"), r.get("rc")), rep)
+    tot_solve = sum(c["runs"] for c in solve_cov.values())
+    ctx.log("solver discipline: %d real solves under the shim, %d limit-lowering calls, %d pool frees, all on a quiescent pool: %s"
+            % (tot_solve, sum(c["lowering"] for c in solve_cov.values()), sum(c["free"] for c in solve_cov.values()),
+               all(c["lowering_busy"] == 0 and c["free_busy"] == 0 for c in solve_cov.values())))
 
     def search():
         # the proof no longer checks: every explored schedule already evaluated the predicate on the real pool
@@ -224,6 +352,13 @@ def run(ctx):
         "events_validated_by_model": tot["events"],
         "runs_accepted_model_and_predicate": tot["ok"],
         "runs_predicate_only": tot["skipped_model"],
+        "runs_with_nested_assign_validated_by_model": tot["nested_runs"],
+        "script_kind_histogram": kinds,
+        "tree_repaired": repaired,
+        "solver_discipline": {"real_solves_under_shim": tot_solve, "per_scenario": solve_cov,
+                              "rule": "every call of set_concurrency_limit / free / assign / wait made during real solves (scenarios: -j2, context re-use, degree < threads, Chebyshev, async private pool, secular; MPS_JOBS 4 and 2; default + random + PCT schedules) is intercepted at link time; a limit-lowering or free on a pool with busy_counter != 0 or a non-empty queue is a violation; nested_assign counts assigns made by a worker of the same pool"},
+        "model_start_state": "init_r (repaired)" if repaired else "init",
+        "example_traces_reproduced": examples_ok,
         "model_rejects": stats["model_rejects"],
         "deadlocks_seen": stats["deadlocks"],
         "known_deadlocks_model_confirmed": stats["known_deadlocks_model_confirmed"],
@@ -238,12 +373,15 @@ def run(ctx):
             "Coq 8.16.1 kernel; all C06 theorems closed under the global context (no axioms)",
             "extraction ExtrOcamlBasic + ExtrOcamlNativeString, hand-written ocaml/pool_driver.ml (line parser, eager firing of LTau)",
             "harness/vf_sched.c: its model of mutex/condvar/join semantics IS the pthread semantics assumed (mutual exclusion, cond_wait atomically releases, signal wakes one waiter if any, spurious wake-ups allowed); sequentially consistent memory (one thread runs at a time)",
-            "harness/c06_pool.c assertions (execution counters, finished flags, unfinished-thread count)",
-            "modelled, not verified: granularity (code between two pthread calls atomic, except after unlock and the read of thread->alive); a single client thread calls the pool API; tasks do not call the API (nested assign is explored on the real code with the harness predicate only); malloc never fails",
-            "small scope of the tie: pools of 1..4 workers, <= 4 tasks per round, <= 3 rounds; schedules within the bound only",
-            "termination of wait (C06_pool_wait_terminates) assumes progress (an enabled non-spurious step is eventually taken) and finitely many spurious wake-ups; no fairness between threads is needed",
+            "harness/c06_pool.c assertions (execution counters, finished flags for every task handed over by the client or by a task body, unfinished-thread count)",
+            "modelled, not verified: granularity (code between two pthread calls atomic, except after unlock and the read of thread->alive); a single client thread calls new/wait/set_concurrency_limit/free; task bodies call only assign, after their yield; malloc never fails",
+            "harness/c06_solve.c: link-time wrappers (--wrap) of the four pool entry points reading busy_counter / queue of the pool at each call; real solves on small polynomials only (degree <= 7), sampled schedules",
+            "small scope of the tie: pools of 1..4 workers, <= 4 tasks per round, <= 3 rounds, nesting depth <= 3; schedules within the bound only",
+            "termination of wait (C06_pool_wait_terminates) assumes progress (an enabled non-spurious step is eventually taken), finitely many spurious wake-ups and finitely many nested assigns; no fairness between threads is needed",
+            "recognition of a repaired tree is textual (bottom of mps_thread_mainloop gives the busy slot back under work_completed_mutex); it only selects the model (init / init_r) every trace is then validated against",
         ],
     }
-    assumptions = ["limit lowered / pool freed only on a quiescent pool (C06_pool_limit_when_idle_ok); otherwise known finding " + SIG_KNOWN,
-                   "single API-calling thread per pool"]
+    assumptions = ["limit lowered / pool freed only on a quiescent pool (C06_pool_limit_when_idle_ok); otherwise known finding " + SIG_KNOWN
+                   + " (free / set_concurrency_limit themselves never block: C06_pool_stuck_only_in_wait; with fixes/C06_limit_while_busy.patch no precondition is left: C06_pool_repaired_no_stuck_state)",
+                   "single thread calling new/wait/set_concurrency_limit/free per pool; task bodies may call assign"]
     return ctx.finish("proof", cov, assumptions)
